@@ -553,19 +553,31 @@ def resolve_driver(res, driver_reqs):
         res.broken_tie("e2e model-vs-binary", first)
 
 
+def _attempt(spec):
+    try:
+        return run_scenario(spec)
+    except Exception as e:   # scenario machinery failure is a broken tie, not a pass
+        return {"spec": {"kind": spec["kind"], "seed": spec["seed"], "fixed": spec.get("fixed")}, "ok": False, "error": repr(e)}
+
+
 def run_e2e(res, specs, workers=12):
     t0 = time.time()
     driver_reqs = []
     with concurrent.futures.ThreadPoolExecutor(workers) as ex:
-        futs = [ex.submit(run_scenario, s) for s in specs]
-        for s, f in zip(specs, futs):
-            try:
-                obs = f.result()
-            except Exception as e:   # scenario machinery failure is a broken tie, not a pass
-                obs = {"spec": {"kind": s["kind"], "seed": s["seed"]}, "ok": False, "error": repr(e)}
-            judge(res, obs, driver_reqs)
+        results = list(ex.map(_attempt, specs))
+    # A subprocess timeout (also of the plain system git) under machine load says nothing about the
+    # property: such scenarios are re-executed in full, two at a time, and judged like any other;
+    # one that times out again is reported as a broken tie.
+    retry = [i for i, o in enumerate(results) if not o.get("ok") and "TimeoutExpired" in str(o.get("error"))]
+    if retry:
+        with concurrent.futures.ThreadPoolExecutor(2) as ex:
+            for i, o in zip(retry, ex.map(_attempt, [specs[i] for i in retry])):
+                results[i] = o
+        res.extra["e2e_retried_after_timeout"] = res.extra.get("e2e_retried_after_timeout", 0) + len(retry)
+    for obs in results:
+        judge(res, obs, driver_reqs)
     resolve_driver(res, driver_reqs)
-    res.extra["e2e_wall_s"] = round(time.time() - t0, 1)
+    res.extra["e2e_wall_s"] = round(res.extra.get("e2e_wall_s", 0) + time.time() - t0, 1)
 
 
 def specs_for(seed, n):
